@@ -30,6 +30,8 @@ REQUIRED_THEOREMS = [
     "TapkeeVerif.Tsne.run_joint_csr",
     "TapkeeVerif.Tsne.symmetrizeCsr_small_partial",
     "TapkeeVerif.Tsne.gradient_identity",
+    "TapkeeVerif.Tsne.exactGradient_is_grad_KL",
+    "TapkeeVerif.Tsne.exactGradient_directional",
     "TapkeeVerif.Tsne.zeroMean_centres",
     "TapkeeVerif.Tsne.run_neighbour_count",
     "TapkeeVerif.Tsne.run_joint_distribution",
